@@ -347,6 +347,75 @@ def r11_8(run):
     c10.wrapper_callbacks(run, 'R11.8')
 
 
+def r11_9(run):
+    """list leg of the change handler, by path enumeration over (value is the unset marker, a type parser is known, the value is a
+    list by then): unset -> the option's default list (never parsed); otherwise parsed exactly once when a parser is known;
+    a scalar result is put in a list; the result is always wrapped, last."""
+    cc = CU(run, '_conf_changed')
+    g = cfg_of(cc)
+    lt = [t for t in g.live if t.kind == 'test' and isinstance(t.ast, ast.Compare) and dotted(t.ast.comparators[0]) == 'self.list_parsers' and isinstance(t.ast.ops[0], (ast.In, ast.NotIn))]
+    run.floor('R11.9', 'list-option tests in _conf_changed', len(lt), 1)
+    wraps = [n for n in g.real_nodes() if n.kind == 'stmt' and isinstance(n.ast, ast.Assign) and isinstance(n.ast.value, ast.Call) and dotted(n.ast.value.func) == '_ListWrapper']
+    run.floor('R11.9', 'wrap sites in _conf_changed', len(wraps), 1)
+    V = assigned_targets(wraps[0].ast)[0]
+
+    def eff(n):
+        if n.kind != 'stmt' or not isinstance(n.ast, ast.Assign) or V not in assigned_targets(n.ast):
+            return None
+        v = n.ast.value
+        if isinstance(v, ast.Call) and dotted(v.func) == '_ListWrapper':
+            return 'wrap'
+        if isinstance(v, ast.Call) and callee_attr(v) == 'get' and 'defaults' in (dotted(receiver(v)) or ''):
+            return 'default'
+        if isinstance(v, ast.Call) and callee_attr(v) == 'parse':
+            return 'parse'
+        if isinstance(v, ast.List) and len(v.elts) == 1 and dotted(v.elts[0]) == V:
+            return 'listify'
+        return 'other'
+    k = 0
+    for S in (True, False):
+        for P in (True, False):
+            for L in (True, False):
+                def hook(node, val, trail, S=S, P=P, L=L):
+                    a = node.ast
+                    if node in lt:
+                        return isinstance(a.ops[0], ast.In)
+                    if isinstance(a, ast.Compare) and dotted(a.left) == V and dotted(a.comparators[0]) == 'DEFAULT_VALUE' and len(a.ops) == 1:
+                        changed = any(eff(n) for n, _ in trail)
+                        if changed:
+                            return None
+                        return S if isinstance(a.ops[0], (ast.Eq, ast.Is)) else (not S)
+                    if isinstance(a, ast.Compare) and dotted(a.comparators[0]) == 'self.parsers' and isinstance(a.ops[0], (ast.In, ast.NotIn)):
+                        return P if isinstance(a.ops[0], ast.In) else (not P)
+                    if isinstance(a, ast.Call) and dotted(a.func) == 'isinstance' and len(a.args) == 2 and dotted(a.args[0]) == V and dotted(a.args[1]) == 'list':
+                        effs = [eff(n) for n, _ in trail if eff(n)]
+                        if 'default' in effs or 'listify' in effs:
+                            return True
+                        return L
+                    return None
+                for p_ in g.paths(eval_hook=hook, loop_bound=1, follow_exc=False):
+                    run.paths_enumerated += 1
+                    if p_.exit == 'raise' or not any(n in wraps for n, _ in p_.steps):
+                        continue
+                    effs = [eff(n) for n, _ in p_.steps if eff(n)]
+                    k += 1
+                    desc = 'unset=%s parser=%s list=%s' % (S, P, L)
+                    if S:
+                        ok = effs.count('default') == 1 and 'parse' not in effs
+                        want = 'the default list, unparsed'
+                    elif P:
+                        ok = effs.count('parse') == 1 and 'default' not in effs
+                        want = 'the value parsed once'
+                    else:
+                        ok = 'parse' not in effs and 'default' not in effs
+                        want = 'the value as it is'
+                    islist = S or L or 'listify' in effs
+                    ok = ok and islist and effs[-1] == 'wrap' and effs.count('wrap') == 1 and 'other' not in effs
+                    run.ob('R11.9', cc, cc.node, 'list option in a change event [%s]: %s, as a list, wrapped' % (desc, want), ok, slot='list-leg:%s' % desc,
+                           message='_conf_changed list leg [%s] does %s (wanted %s, a list, wrapped last)' % (desc, effs, want), path=p_.describe(10))
+    run.floor('R11.9', 'list-leg paths', k, 6)
+
+
 def r11_6(run):
     us = [CU(run, '_do_setup'), CU(run, '_get_defaults'), run.idx.find_method(TC(run), 'from_protocol')]
     k = dropped_deferreds(run, 'R11.6', [u for u in us if u is not None], 'the configuration bootstrap')
@@ -356,6 +425,7 @@ def r11_6(run):
 RULES = [
     ('R11.7', 'every assigned list value gets its own tracked wrapper (no aliasing between options)', r11_7),
     ('R11.8', 'every tracked list\'s modification callback binds its own option name eagerly (partial / lambda default), equal to the key it is stored under', r11_8),
+    ('R11.9', 'list leg of _conf_changed by path enumeration over (unset marker, parser known, already a list): default / parse once / listify / wrap last', r11_9),
     ('R11.6', 'no dropped Deferred in the configuration bootstrap (every GETCONF is awaited before the view is declared ready)', r11_6),
     ('R11.5', 'sibling agreement: default lookup + parse on the unset leg in _do_setup and _conf_changed; key-form agreement of list_parsers writers/reader', r11_5),
     ('R11.1', 'store-site typing: every value stored under a Tor option key that may be list-typed is a _ListWrapper (or excluded by a dominating test / copied from the wrapped pending set)', r11_1),
@@ -367,6 +437,10 @@ RULES = [
 from ..selftest import M  # noqa: E402
 F = 'txtorcon/torconfig.py'
 MUTANTS = [
+    M('list-leg-unset-negated', F, "                if v == DEFAULT_VALUE:\n                    v = self._defaults.get(real_name, [])\n                elif real_name in self.parsers:", "                if v != DEFAULT_VALUE:\n                    v = self._defaults.get(real_name, [])\n                elif real_name in self.parsers:", ['R11.9']),
+    M('list-leg-no-default', F, "                if v == DEFAULT_VALUE:\n                    v = self._defaults.get(real_name, [])\n                elif real_name in self.parsers:", "                if v == DEFAULT_VALUE:\n                    pass\n                elif real_name in self.parsers:", ['R11.9']),
+    M('list-leg-not-parsed', F, "                elif real_name in self.parsers:\n                    v = self.parsers[real_name].parse(v)\n                if not isinstance(v, list):", "                elif real_name in self.parsers:\n                    pass\n                if not isinstance(v, list):", ['R11.9']),
+    M('list-leg-no-listify', F, "                if not isinstance(v, list):\n                    v = [v]\n                v = _ListWrapper(", "                v = _ListWrapper(", ['R11.9']),
     M('port-default-by-map-truthiness', F, "                    try:\n                        initial = defaults[name[:-5]]\n                    except KeyError:\n", "                    if defaults:\n                        initial = defaults.get(name[:-5], [])\n                    else:\n", ['R11.5']),
     M('default-list-parsed', F, "                    v = self._defaults.get(real_name, [])\n                elif real_name in self.parsers:", "                    v = self._defaults.get(real_name, [])\n                if real_name in self.parsers:", ['R11.3']),
     M('conf-changed-late-bound-callback', F, "                v = _ListWrapper(\n                    v, functools.partial(self.mark_unsaved, real_name))\n            else:\n                if v == DEFAULT_VALUE:", "                v = _ListWrapper(v, lambda: self.mark_unsaved(real_name))\n            else:\n                if v == DEFAULT_VALUE:", ['R11.8']),
